@@ -14,6 +14,8 @@ IDENTS = [
     "Mb", "MB", "Ok", "OK", "Io_Error", "IO_ERROR", "SetUp", "Setup", "LogIn", "Login", "FooBar", "Foobar",
     "Err", "None", "Some", "Error", "Result", "Item", "Output", "Default", "Iter", "Table", "Discriminant", "Value",
     "V1", "V_1", "rustLang", "r2_d2", "ring_road", "rr",
+    # identifiers whose snake_case form is a keyword, two of which (crate, super) cannot even be raw identifiers
+    "Crate", "Super", "Const", "Dyn", "Await", "Impl",
 ]
 RAW_KEYWORDS = ["type", "match", "fn", "loop", "async", "mod", "struct", "use", "move", "ref"]
 
